@@ -1,6 +1,6 @@
 (* C08: MTZ files written by gemmi read back bit-identically, in either byte order.
    Statements only; proofs are in Mtz/FmtProofs.v, Mtz/HeaderProofs.v, Mtz/DataProofs.v. *)
-From GV Require Import Base.Str Mtz.Fmt Mtz.FmtProofs Mtz.Header Mtz.HeaderProofs Mtz.ParseProofs Mtz.RoundTrip Mtz.Data Mtz.DataProofs.
+From GV Require Import Base.Str Mtz.Fmt Mtz.FmtProofs Mtz.Header Mtz.HeaderProofs Mtz.ParseProofs Mtz.RoundTrip Mtz.Data Mtz.DataProofs Mtz.RoundTrip2.
 Local Open Scope Z_scope.
 
 (* Every header record emitted is exactly 80 bytes and no store of the writer leaves char buf[81]
@@ -86,3 +86,46 @@ Theorem reader_offset_arithmetic_safe : forall b same off, read_first b = Some (
   21 <= off /\ 0 <= off - 1 - 20 /\ 4 * (off - 1) < 2 ^ 63 /\ 4 * (off - 1 - 20) < 2 ^ 63.
 Proof. exact read_first_offset_range. Qed.
 Print Assumptions reader_offset_arithmetic_safe.
+
+(* two more records: SORT (five %3d fields) and MTZHIST (%3d) read back to the numbers written, for all values *)
+Theorem sort_record_roundtrip : forall st a b c d e, (length (pr_sort [a; b; c; d; e]) <= 80)%nat ->
+  parse_record st (write_rec (pr_sort [a; b; c; d; e])) = set_sort st [a; b; c; d; e].
+Proof. exact sort_roundtrip. Qed.
+Print Assumptions sort_record_roundtrip.
+
+Theorem mtzhist_record_roundtrip : forall n, (length (pr_mtzhist n) <= 80)%nat ->
+  parse_mtzhist (write_rec (pr_mtzhist n)) = n.
+Proof. exact mtzhist_roundtrip. Qed.
+Print Assumptions mtzhist_record_roundtrip.
+
+(* SYMINF: the number of operations, the CCP4 space-group number and the quoted space-group name read back, for
+   any numbers, any lattice letter and any name without a quote character *)
+Theorem syminf_record_roundtrip : forall st nsym nprim lat ccp4 hm pg,
+  word_char lat = true -> lat <> 39 ->
+  Forall (fun c => c <> 39) (cstr (adv hm)) ->
+  (length (pr_syminf nsym nprim lat ccp4 hm pg) <= 80)%nat ->
+  parse_record st (write_rec (pr_syminf nsym nprim lat ccp4 hm pg)) = set_symi st nsym ccp4 (lat :: cstr (adv hm)).
+Proof. exact syminf_roundtrip. Qed.
+Print Assumptions syminf_record_roundtrip.
+
+(* BH (batch number, total / integer / float word counts) and the CRYSTAL / DATASET names attached to the dataset
+   opened by the PROJECT record *)
+Theorem bh_record_roundtrip : forall b, (length (pr_bh b) <= 80)%nat ->
+  parse_bh (write_rec (pr_bh b)) = (b_num b, b_nint b + b_nflt b, b_nint b, b_nflt b).
+Proof. exact bh_roundtrip. Qed.
+Print Assumptions bh_record_roundtrip.
+
+Theorem crystal_record_roundtrip : forall st d t n0 nt,
+  p_dss st = d :: t -> wordy (n0 :: nt) -> (length (pr_dsname k_CRYSTAL (pd_id d) (n0 :: nt)) <= 80)%nat ->
+  parse_record st (write_rec (pr_dsname k_CRYSTAL (pd_id d) (n0 :: nt))) =
+  set_dss st (mkPds (pd_id d) (pd_proj d) (n0 :: nt) (pd_name d) :: t).
+Proof. exact crystal_roundtrip. Qed.
+Print Assumptions crystal_record_roundtrip.
+
+Theorem dataset_record_roundtrip : forall st d t n0 nt,
+  p_dss st = d :: t -> wordy (n0 :: nt) -> (length (pr_dsname k_DATASET (pd_id d) (n0 :: nt)) <= 80)%nat ->
+  parse_record st (write_rec (pr_dsname k_DATASET (pd_id d) (n0 :: nt))) =
+  set_dss st (mkPds (pd_id d) (pd_proj d) (pd_crys d) (n0 :: nt) :: t).
+Proof. exact dataset_roundtrip. Qed.
+Print Assumptions dataset_record_roundtrip.
+
